@@ -4,6 +4,7 @@ fail=0
 tmp=$(mktemp -d)
 for p in $(/verif/bin/bornocheck -list); do
   ( /verif/bin/bornocheck -property $p -tier ${TIER:-quick} > $tmp/$p.out 2>&1; echo $? > $tmp/$p.rc ) &
+  if [ "${TIER:-quick}" = thorough ]; then while [ $(jobs -r | wc -l) -ge ${JOBS:-5} ]; do sleep 1; done; fi
 done
 wait
 for p in $(/verif/bin/bornocheck -list); do
